@@ -1176,7 +1176,16 @@ func (p *PubSub) handleDeadPeers() {
 		q.Close()
 		delete(p.peers, pid)
 
-		p.clearPeerFromTopicsState(pid)
+		// The peer announced its subscriptions on its own stream to us. As long
+		// as that stream is alive it will not announce them again, so they must
+		// survive the death (and respawn) of our outbound stream; they are
+		// cleared when the inbound stream closes.
+		p.inboundStreamsMx.Lock()
+		_, hasInbound := p.inboundStreams[pid]
+		p.inboundStreamsMx.Unlock()
+		if !hasInbound {
+			p.clearPeerFromTopicsState(pid)
+		}
 		p.rt.OnClosedOutboundStream(pid)
 
 		if p.host.Network().Connectedness(pid) == network.Connected {
